@@ -85,3 +85,34 @@ Example C13_example :
   list_eqb Qc_eqb (interp_linear [qz 0; qz 2; qz 3] [qz 1; qz 5; qz 2] [qz (-1); qz 1; qz 2; qf 5 2; qz 9])
                   [qz 1; qz 3; qz 5; qf 7 2; qz 2] = true.
 Proof. vm_compute. reflexivity. Qed.
+
+(* ==================================================================================================== *)
+(** _piecewise_constant_interpolate REGENERATED by tools/translate_ext_process2.py (Gen/Process2Glue.v): run = interp_constant *)
+From TW Require Import Model.GlueLeaves_Process2 Gen.Process2Glue Proofs.GlueProcess2Common Proofs.GlueProcess2PciProofs.
+Open Scope Qc_scope.
+Open Scope string_scope.
+
+(** _piecewise_constant_interpolate(x, y, new_x, left) for len x <= len y, error branches included (an empty x or new_x:
+    StopIteration on both sides); `left` omitted is left=None.  With y shorter than x the code raises IndexError where the
+    model's total element access answers 0 (pci_outside_guard). *)
+Theorem C13_glue_piecewise_constant : forall pw normal x y nx left, (length x <=? length y)%nat = true ->
+  outcome_arr (call_fun (p2_callf normal) p2_methf no_apply (p2_powf pw) process2_functions "_piecewise_constant_interpolate"
+     [("x", VArr x); ("y", VArr y); ("new_x", VArr nx); ("left", optQ left)]) = interp_constant x y nx left /\
+  outcome_arr (call_fun (p2_callf normal) p2_methf no_apply (p2_powf pw) process2_functions "_piecewise_constant_interpolate"
+     [("x", VArr x); ("y", VArr y); ("new_x", VArr nx)]) = interp_constant x y nx None.
+Proof.
+  intros pw normal x y nx left Hg. split.
+  - exact (glue_piecewise_constant pw normal x y nx left Hg).
+  - exact (eq_trans (glue_piecewise_constant_default pw normal x y nx) (glue_piecewise_constant pw normal x y nx None Hg)).
+Qed.
+Print Assumptions C13_glue_piecewise_constant.
+
+(** the leaf `find_closest_lower_equal_element_indices_to_values(x, new_x)` of the run above is the regenerated while-loop scan of
+    Gen/ScanGlue.v (default fill_not_valid=True, any sufficient fuel) *)
+From TW Require Import Model.GlueWhile Gen.ScanGlue Proofs.GlueScanProofs Proofs.GlueProcess2ScanLink.
+Theorem C13_glue_piecewise_constant_scan_leaf : forall normal x lk fuel, (scan_fuel x lk <= fuel)%nat ->
+  p2_callf normal "find_closest_lower_equal_element_indices_to_values" [VArr x; VArr lk] [] =
+  (let? r := wout_idx (wcall fuel scan_callf array_methf scan_functions "find_closest_lower_equal_element_indices_to_values"
+                         [("x", VArr x); ("lookup", VArr lk)]) in Ok (VIdxArr r)).
+Proof. exact find_lower_leaf_is_scan. Qed.
+Print Assumptions C13_glue_piecewise_constant_scan_leaf.
